@@ -29,6 +29,8 @@ type QueryStep struct {
 	CountTotal bool   `json:"count_total,omitempty"`
 	Reverse    bool   `json:"reverse,omitempty"`
 	ByOffset   bool   `json:"by_offset,omitempty"`
+	// StartOffset: the offset walk starts here instead of at 0 (also at or beyond the end)
+	StartOffset uint64 `json:"start_offset,omitempty"`
 }
 
 // QueryCtx is what the checker judges.
@@ -1309,6 +1311,10 @@ func (w *World) execQuery(st *Step) {
 	} else {
 		pg := &query.PageRequest{Limit: qs.Limit, CountTotal: qs.CountTotal, Reverse: qs.Reverse}
 		var offset uint64
+		if qs.ByOffset && qs.StartOffset > 0 {
+			offset = qs.StartOffset
+			pg.Offset = offset
+		}
 		for n := 0; ; n++ {
 			if n >= maxPagesWalk {
 				q.WalkErr = "page walk did not terminate"
@@ -1380,6 +1386,9 @@ func (g *Gen) genQueries(midBlock bool) bool {
 			qs.CountTotal = g.R.Chance(0.5)
 			qs.Reverse = g.R.Chance(0.3)
 			qs.ByOffset = g.R.Chance(0.4)
+			if qs.ByOffset && qs.Limit > 0 && g.R.Chance(0.3) {
+				qs.StartOffset = Pick(g.R, []uint64{1, nw / 2, nw, nw + 1, nw + 7, 1000})
+			}
 		}
 		if !g.emit(&Step{Kind: KQuery, Query: qs}) {
 			return false
